@@ -11,18 +11,21 @@ import (
 	"strconv"
 	"time"
 
+	crand "crypto/rand"
 	_ "github.com/cbeuw/Cloak/internal/client"
 	_ "github.com/cbeuw/Cloak/internal/common"
 	_ "github.com/cbeuw/Cloak/internal/multiplex"
 	_ "github.com/cbeuw/Cloak/internal/server"
 	_ "github.com/cbeuw/Cloak/internal/server/usermanager"
 	_ "github.com/cbeuw/Cloak/internal/vref"
+	"github.com/cbeuw/Cloak/internal/vrt"
 	_ "github.com/cbeuw/Cloak/internal/vself"
 	"github.com/cbeuw/Cloak/internal/vx"
 	log "github.com/sirupsen/logrus"
 )
 
 func main() {
+	crand.Reader = vrt.DetReader{} // un-instrumented libraries (uTLS) draw from the owned randomness too
 	log.SetOutput(io.Discard)
 	log.SetLevel(log.PanicLevel)
 	log.StandardLogger().ExitFunc = func(int) { panic("log.Fatal called") }
